@@ -166,6 +166,12 @@ def run(rep, tier, driver):
             if q == s and fl.get("match_nodes") and isinstance(c, int) and c < 1:
                 rep.violation("input", {"iupac": s, "query": q, "flags": fl}, {"count": c}, ">= 1 (every glycan contains itself)", key="self:%s:%s" % (s, sorted(fl)))
 
+    # the Lean Model of recipe_equality (matchBasic / matchSome: C16_some_le_basic_partial is about them) against glycan.py
+    import queryx
+    mnames = list(cv.names) + [c + x for c in ("Glc", "Gal", "Man", "Neu", "Kdo") for x in ("NAc", "2NAc", "6S", "A", "5Ac", "N", "3Me6S", "f", "p a")] + \
+        ["ManHep", "LDManHep", "GalOct", "Hep", "Hex", "Oct", "D-Glc", "L-Fuc", "6dTal", "Glc-ol"]
+    queryx.run_match(rep, tier, driver, mnames, rng)
+
 
 def replay(body):
     c = body["case"]
